@@ -11,7 +11,10 @@ for s in "${seeds[@]}"; do
   prop=$(python3 -c "import json;print(json.load(open('$d/meta.json'))['property'])")
   props="$prop $(python3 -c "import json;print(' '.join(json.load(open('$d/meta.json')).get('also',[])))")"
   r=/var/tmp/seedrun.$$; rm -rf $r; cp -r /repo $r; git -C $r update-index -q --refresh
-  if grep -q '^+++ b/checkers/rules/rules.go' $d/patch.diff; then
+  if [ -f $d/rebased.diff ] && grep -q '^+++ b/checkers/rules/rules.go' $d/rebased.diff; then
+    (cd $r && git apply $OLDPWD/$d/rebased.diff >/dev/null 2>&1) || { echo "$s: REBASED-PATCH-DOES-NOT-APPLY"; rm -rf $r; continue; }
+    (cd $r/checkers && GOMODCACHE=/root/go/pkg/mod go run ./rules/precompile.go -rules ./rules/rules.go -o ./rulesdata/rulesdata.go >/dev/null 2>&1) || { echo "$s: REGENERATION-FAILED"; rm -rf $r; continue; }
+  elif grep -q '^+++ b/checkers/rules/rules.go' $d/patch.diff; then
     # the precompiled rule data changed since the seed was recorded: apply the change to the rule source and regenerate
     # the data with the project's own generator (what the seed's author did as well)
     if ! (cd $r && git apply --3way --exclude=checkers/rulesdata/rulesdata.go $OLDPWD/$d/patch.diff >/dev/null 2>&1); then
